@@ -37,6 +37,10 @@ type fixture struct {
 	lendB    uint64 // asset borrowed
 	pairAB   uint64
 	pairBA   uint64
+	lendC    uint64 // second transit asset
+	lendD    uint64 // asset of the second pool, borrowed cross-pool against A
+	pool2    uint64
+	pairAD   uint64 // inter-pool pair: collateral A lent in pool 1, D borrowed from pool 2 (bridged through B or C)
 }
 
 func setPrice(e *sim.Env, id uint64, p uint64) {
@@ -141,11 +145,14 @@ func newFixture() *fixture {
 	f.lendApp = addApp(e, lendtypes.AppName)
 	f.lendA = addAsset(e, "LENDA", "ulenda", 1000000)
 	f.lendB = addAsset(e, "LENDB", "ulendb", 1000000)
-	lendC := addAsset(e, "LENDC", "ulendc", 1000000)
+	f.lendC = addAsset(e, "LENDC", "ulendc", 1000000)
+	lendC := f.lendC
 	cA := addAsset(e, "CLENDA", "uclenda", 1000000)
 	cB := addAsset(e, "CLENDB", "uclendb", 1000000)
 	cC := addAsset(e, "CLENDC", "uclendc", 1000000)
-	for _, a := range []uint64{f.lendA, f.lendB, lendC} {
+	f.lendD = addAsset(e, "LENDD", "ulendd", 1000000)
+	cD := addAsset(e, "CLENDD", "uclendd", 1000000)
+	for _, a := range []uint64{f.lendA, f.lendB, lendC, f.lendD} {
 		setPrice(e, a, 1000000)
 	}
 	must(e.App.LendKeeper.AddPoolRecords(e.Ctx, lendtypes.Pool{ModuleName: lendtypes.ModuleAcc1, CPoolName: "A-B-C", AssetData: []*lendtypes.AssetDataPoolMapping{
@@ -153,26 +160,35 @@ func newFixture() *fixture {
 		{AssetID: f.lendB, AssetTransitType: 2, SupplyCap: sdk.NewDec(5000000000000000000)},
 		{AssetID: lendC, AssetTransitType: 3, SupplyCap: sdk.NewDec(5000000000000000000)}}}))
 	f.lendPool = 1
+	must(e.App.LendKeeper.AddPoolRecords(e.Ctx, lendtypes.Pool{ModuleName: lendtypes.ModuleAcc2, CPoolName: "D-B-C", AssetData: []*lendtypes.AssetDataPoolMapping{
+		{AssetID: f.lendD, AssetTransitType: 1, SupplyCap: sdk.NewDec(5000000000000000000)},
+		{AssetID: f.lendB, AssetTransitType: 2, SupplyCap: sdk.NewDec(5000000000000000000)},
+		{AssetID: lendC, AssetTransitType: 3, SupplyCap: sdk.NewDec(5000000000000000000)}}}))
+	f.pool2 = 2
 	rp := func(asset, c uint64, stable bool) lendtypes.AssetRatesParams {
 		return lendtypes.AssetRatesParams{AssetID: asset, UOptimal: permille(800), Base: permille(2), Slope1: permille(70), Slope2: permille(1250),
 			EnableStableBorrow: stable, StableBase: permille(40), StableSlope1: permille(40), StableSlope2: permille(60), Ltv: permille(700),
 			LiquidationThreshold: permille(750), LiquidationPenalty: permille(50), LiquidationBonus: permille(50), ReserveFactor: permille(200), CAssetID: c}
 	}
-	must(e.App.LendKeeper.AddAssetRatesParams(e.Ctx, rp(f.lendA, cA, true), rp(f.lendB, cB, true), rp(lendC, cC, true)))
+	must(e.App.LendKeeper.AddAssetRatesParams(e.Ctx, rp(f.lendA, cA, true), rp(f.lendB, cB, true), rp(lendC, cC, true), rp(f.lendD, cD, true)))
 	must(e.App.LendKeeper.AddLendPairsRecords(e.Ctx, lendtypes.Extended_Pair{AssetIn: f.lendA, AssetOut: f.lendB, IsInterPool: false, AssetOutPoolID: f.lendPool, MinUsdValueLeft: 100000}))
 	must(e.App.LendKeeper.AddLendPairsRecords(e.Ctx, lendtypes.Extended_Pair{AssetIn: f.lendB, AssetOut: f.lendA, IsInterPool: false, AssetOutPoolID: f.lendPool, MinUsdValueLeft: 100000}))
+	must(e.App.LendKeeper.AddLendPairsRecords(e.Ctx, lendtypes.Extended_Pair{AssetIn: f.lendA, AssetOut: f.lendD, IsInterPool: true, AssetOutPoolID: f.pool2, MinUsdValueLeft: 100000}))
 	for _, p := range e.App.LendKeeper.GetLendPairs(e.Ctx) {
 		if p.AssetIn == f.lendA && p.AssetOut == f.lendB {
 			f.pairAB = p.Id
+		}
+		if p.AssetIn == f.lendA && p.AssetOut == f.lendD {
+			f.pairAD = p.Id
 		}
 		if p.AssetIn == f.lendB && p.AssetOut == f.lendA {
 			f.pairBA = p.Id
 		}
 	}
-	must(e.App.LendKeeper.AddAssetToPair(e.Ctx, lendtypes.AssetToPairMapping{AssetID: f.lendA, PoolID: f.lendPool, PairID: []uint64{f.pairAB}}))
+	must(e.App.LendKeeper.AddAssetToPair(e.Ctx, lendtypes.AssetToPairMapping{AssetID: f.lendA, PoolID: f.lendPool, PairID: []uint64{f.pairAB, f.pairAD}}))
 	must(e.App.LendKeeper.AddAssetToPair(e.Ctx, lendtypes.AssetToPairMapping{AssetID: f.lendB, PoolID: f.lendPool, PairID: []uint64{f.pairBA}}))
 	mintToModule(e, lendtypes.ModuleName, sdk.NewCoin("ulenda", sdk.NewInt(1000000000000000000))) // reserve that tops up lender rewards
-	for _, d := range []string{"ucoll", "udebt", "ulenda", "ulendb", "ulendc"} {
+	for _, d := range []string{"ucoll", "udebt", "ulenda", "ulendb", "ulendc", "ulendd"} {
 		mintTo(e, f.user, sdk.NewCoin(d, sdk.NewInt(2000000000000000000)))
 	}
 	return f
@@ -291,6 +307,12 @@ func keeperRuns(lg *sim.Log, seed int64, runs, steps int) (int, error) {
 		e := f.e.Branch()
 		run := fmt.Sprintf("keeper:%s:%d:%d", kind, seed, r)
 		var id, app uint64
+		variant := kind // how the position is created; borrow: same pool / cross-pool via transit 1 / via transit 2 / BorrowAlternate
+		// the product / pool / owner state is OLDER than the position: the clock moves on before it is opened
+		age := []int64{1, 6, 3600, 86400, 2629800}[rng.Intn(5)]
+		older := func() {
+			e.Ctx = e.Ctx.WithBlockHeight(e.Ctx.BlockHeight() + 1).WithBlockTime(e.Ctx.BlockTime().Add(time.Duration(age) * time.Second))
+		}
 		var rate, principal string
 		var open sim.Result
 		var calc func() sdk.Msg
@@ -306,6 +328,7 @@ func keeperRuns(lg *sim.Log, seed int64, runs, steps int) (int, error) {
 				out = []int64{1000000, 1234567, 200000000}[rng.Intn(3)]
 			}
 			principal = fmt.Sprint(out)
+			older()
 			open = e.Deliver(vaulttypes.NewMsgCreateRequest(f.user, f.app, f.extPairs[i], sdk.NewInt(out).MulRaw(2), sdk.NewInt(out)))
 			for _, v := range e.App.VaultKeeper.GetVaults(e.Ctx) {
 				id = v.Id
@@ -326,6 +349,7 @@ func keeperRuns(lg *sim.Log, seed int64, runs, steps int) (int, error) {
 				amt = []int64{1000000, 7654321}[rng.Intn(2)]
 			}
 			principal = fmt.Sprint(amt)
+			older()
 			open = e.Deliver(lockertypes.NewMsgCreateLockerRequest(f.user.String(), sdk.NewInt(amt), f.debt, app))
 			for _, l := range e.App.LockerKeeper.GetLockers(e.Ctx) {
 				id = l.LockerId
@@ -343,20 +367,64 @@ func keeperRuns(lg *sim.Log, seed int64, runs, steps int) (int, error) {
 			if burst {
 				lendAmt = []int64{100000000, 123456789}[rng.Intn(2)]
 			}
-			// liquidity of the borrowed asset + the user's own lend position
-			if res := e.Deliver(lendtypes.NewMsgFundModuleAccounts(f.lendPool, f.lendB, f.user.String(), sdk.NewCoin("ulendb", sdk.NewInt(lendAmt*2)))); !res.OK {
-				return 0, fmt.Errorf("fund pool: %s", res.Err)
-			}
-			open = e.Deliver(lendtypes.NewMsgLend(f.user.String(), f.lendA, sdk.NewCoin("ulenda", sdk.NewInt(lendAmt)), f.lendPool, f.lendApp))
-			id = 1
-			principal = fmt.Sprint(lendAmt)
 			stable := rng.Intn(2) == 0
 			util := int64(1 + rng.Intn(9)) // borrow util/10 of what the collateral allows (ltv 0.7)
 			bor := lendAmt * 7 / 10 * util / 10
 			rate = fmt.Sprintf("util:%d/10,stable:%v", util, stable)
-			if open.OK && kind == "borrow" {
-				open = e.Deliver(lendtypes.NewMsgBorrow(f.user.String(), 1, f.pairAB, stable, sdk.NewCoin("uclenda", sdk.NewInt(lendAmt)), sdk.NewCoin("ulendb", sdk.NewInt(bor))))
+			if kind == "borrow" {
+				variant = []string{"same", "x1", "x2", "alt"}[(r/len(kinds))/2%4]
+			}
+			fund := func(pool, asset uint64, denom string, amt int64) error {
+				if res := e.Deliver(lendtypes.NewMsgFundModuleAccounts(pool, asset, f.user.String(), sdk.NewCoin(denom, sdk.NewInt(amt)))); !res.OK {
+					return fmt.Errorf("fund pool %d %s: %s", pool, denom, res.Err)
+				}
+				return nil
+			}
+			id = 1
+			principal = fmt.Sprint(lendAmt)
+			switch variant {
+			case "x1", "x2":
+				// cross-pool: A is lent in pool 1, D is borrowed from pool 2; the collateral value is bridged through the first
+				// transit asset (B) when pool 1 holds enough of it, otherwise through the second (C)
+				bor = lendAmt * 49 / 100 * util / 10
+				tr, td := f.lendB, "ulendb"
+				if variant == "x2" {
+					tr, td = f.lendC, "ulendc"
+				}
+				if err := fund(f.lendPool, tr, td, lendAmt); err != nil {
+					return 0, err
+				}
+				if err := fund(f.pool2, f.lendD, "ulendd", lendAmt*2); err != nil {
+					return 0, err
+				}
+				open = e.Deliver(lendtypes.NewMsgLend(f.user.String(), f.lendA, sdk.NewCoin("ulenda", sdk.NewInt(lendAmt)), f.lendPool, f.lendApp))
+				if open.OK {
+					older() // the lend position was last touched in an earlier block than the borrow
+					open = e.Deliver(lendtypes.NewMsgBorrow(f.user.String(), 1, f.pairAD, stable, sdk.NewCoin("uclenda", sdk.NewInt(lendAmt)), sdk.NewCoin("ulendd", sdk.NewInt(bor))))
+					principal = fmt.Sprint(bor)
+				}
+			case "alt":
+				if err := fund(f.lendPool, f.lendB, "ulendb", lendAmt*2); err != nil {
+					return 0, err
+				}
+				older()
+				open = e.Deliver(lendtypes.NewMsgBorrowAlternate(f.user.String(), f.lendA, f.lendPool, sdk.NewCoin("ulenda", sdk.NewInt(lendAmt)), f.pairAB, stable,
+					sdk.NewCoin("ulendb", sdk.NewInt(bor)), f.lendApp))
 				principal = fmt.Sprint(bor)
+			default:
+				// liquidity of the borrowed asset + the user's own lend position
+				if err := fund(f.lendPool, f.lendB, "ulendb", lendAmt*2); err != nil {
+					return 0, err
+				}
+				if kind == "lend" {
+					older()
+				}
+				open = e.Deliver(lendtypes.NewMsgLend(f.user.String(), f.lendA, sdk.NewCoin("ulenda", sdk.NewInt(lendAmt)), f.lendPool, f.lendApp))
+				if open.OK && kind == "borrow" {
+					older()
+					open = e.Deliver(lendtypes.NewMsgBorrow(f.user.String(), 1, f.pairAB, stable, sdk.NewCoin("uclenda", sdk.NewInt(lendAmt)), sdk.NewCoin("ulendb", sdk.NewInt(bor))))
+					principal = fmt.Sprint(bor)
+				}
 			}
 			if open.OK && kind == "lend" {
 				// somebody has to borrow the lent asset for the lend APR to be positive: a second position lends B and borrows A
@@ -368,8 +436,14 @@ func keeperRuns(lg *sim.Log, seed int64, runs, steps int) (int, error) {
 			}
 			calc = func() sdk.Msg { return lendtypes.NewMsgCalculateInterestAndRewards(f.user.String()) }
 		}
+		bridged := "" // cross-pool borrows: the transit asset the code actually bridged through (from the stored position)
+		if kind == "borrow" {
+			if b, ok := e.App.LendKeeper.GetBorrow(e.Ctx, id); ok && b.BridgedAssetAmount.Amount.IsPositive() {
+				bridged = b.BridgedAssetAmount.Denom
+			}
+		}
 		p := f.project(e, kind, app, id)
-		par := lg.Add(0, run, "Open", map[string]interface{}{"kind": kind, "rate": rate, "principal": principal, "dt": 0, "burst": burst},
+		par := lg.Add(0, run, "Open", map[string]interface{}{"kind": kind, "variant": variant, "bridged": bridged, "age": age, "rate": rate, "principal": principal, "dt": 0, "burst": burst},
 			map[string]interface{}{"ok": open.OK, "err": open.Err}, p)
 		if !open.OK || !p.Found {
 			continue
@@ -386,6 +460,9 @@ func keeperRuns(lg *sim.Log, seed int64, runs, steps int) (int, error) {
 			}
 			if burst {
 				dt = burstGaps[rng.Intn(len(burstGaps))]
+			}
+			if s == 0 && (burst || rng.Intn(3) == 0) {
+				dt = 0 // a trigger at the creation time of the position: nothing can have accrued yet
 			}
 			e.Ctx = e.Ctx.WithBlockHeight(e.Ctx.BlockHeight() + 1).WithBlockTime(e.Ctx.BlockTime().Add(time.Duration(dt) * time.Second))
 			var res sim.Result
@@ -452,7 +529,7 @@ func keeperRuns(lg *sim.Log, seed int64, runs, steps int) (int, error) {
 			single0, _ := evalFn(e, fn, fP, fR, dt, sdk.OneDec()) // one accrual over the time since the previous trigger
 			p = f.project(e, kind, app, id)
 			par = lg.Add(par, run, "Accrue",
-				map[string]interface{}{"kind": kind, "via": via, "rate": rate, "principal": principal, "dt": dt, "burst": burst,
+				map[string]interface{}{"kind": kind, "variant": variant, "via": via, "rate": rate, "principal": principal, "dt": dt, "burst": burst,
 					"fn": fn, "P": epP, "PL": sim.Limbs(fP.BigInt()), "r": epR, "T": epT, "k": epK,
 					"idxL": sim.Limbs(fIdx.BigInt()), "ivL": sim.Limbs(iv), "stale": stale},
 				map[string]interface{}{"ok": res.OK, "err": res.Err, "panic": res.Panic},
